@@ -4,7 +4,11 @@
    [run w c stored0 evs] (Model/C05.v) is the complete history of a relayer under ANY environment
    script - heads at any rhythm, faults, any number of crashes/restarts - for any configured start,
    stored cursor and flags; [aligned_setup w c] = Bitcoin (single-block ranges) or a wiring that
-   aligns every start block (what app.go does for EVM and Substrate: theorems at the end). *)
+   aligns every start block - stored, configured or head - to the block interval, hands the result to
+   the chain object and builds the listener over the same interval (C19_wiring_aligned_spec; what
+   app.go does for EVM and Substrate: theorems at the end, by computation on the record regenerated from
+   app.go; a wiring that aligns to the confirmation depth, or not every start value, is refuted:
+   C19_conf_aligned_refuted, C19_known_only_refuted). *)
 From Coq Require Import List ZArith NArith Bool String Permutation.
 Import ListNotations.
 From SygmaV Require Import Model.C05 Proofs.C05 Model.C19 Proofs.C19 Gen.C05_Wiring.
@@ -17,6 +21,27 @@ Theorem C19_ranges_are_cells : forall w c stored0 evs k s e ok,
   In (OHandle k s e ok) (run w c stored0 evs) -> s mod stp c = 0 /\ e = s + stp c - 1.
 Proof. exact ranges_are_cells. Qed.
 Print Assumptions C19_ranges_are_cells.
+
+Theorem C19_wiring_aligned_spec : forall w, wiring_aligned w = true <->
+  (reads_store w = true /\ head_if_nil w = true /\ align_arg w = AlignInterval /\ aligns_known w = true
+   /\ aligns_head w = true /\ chain_arg w = ChainStart /\ steps_by_interval w = true).
+Proof. exact wiring_aligned_spec. Qed.
+Print Assumptions C19_wiring_aligned_spec.
+
+(* The start block aligned to the confirmation depth instead (listener stepping by the interval): some
+   scanned range is no cell. *)
+Theorem C19_conf_aligned_refuted :
+  exists c stored0 evs k s e ok,
+    wf_cfg c = true /\ In (OHandle k s e ok) (run conf_aligned_wiring c stored0 evs) /\ s mod stp c <> 0.
+Proof. exact conf_aligned_refuted. Qed.
+Print Assumptions C19_conf_aligned_refuted.
+
+(* Only a start block known beforehand aligned, the head substituted for nil not: the same. *)
+Theorem C19_known_only_refuted :
+  exists c stored0 evs k s e ok,
+    wf_cfg c = true /\ In (OHandle k s e ok) (run known_only_wiring c stored0 evs) /\ s mod stp c <> 0.
+Proof. exact known_only_refuted. Qed.
+Print Assumptions C19_known_only_refuted.
 
 (* Two relayers with arbitrary configurations (same interval) and arbitrary histories that both
    look at block b do so through the same range ... *)
@@ -148,6 +173,85 @@ Theorem C19_btc_exec_judge_sound : forall props runs,
 Proof. exact bexec_ok_sound. Qed.
 Print Assumptions C19_btc_exec_judge_sound.
 
+(* Identifiers do not depend on one relayer's transient faults.  A delivery is chain data: the proposals
+   and which of them the destination reports executed; [mark d mask] is that delivery on a relayer whose
+   executed-status look-ups fail at the positions marked in [mask].  [evm_exec] / [sub_exec] / [btc_exec]
+   = the sessions (members -> session id; Bitcoin: members -> resource, whose id names the session)
+   Execute starts.  Whatever look-ups fail, a relayer starts the sessions of its fault-free peers or none
+   ... *)
+Theorem C19_evm_fault_all_or_nothing : forall mid cap tg d mask,
+  evm_exec mid cap tg (mark d mask) = [] \/ evm_exec mid cap tg (mark d mask) = evm_exec mid cap tg (mark d []).
+Proof. exact evm_exec_all_or_nothing. Qed.
+Print Assumptions C19_evm_fault_all_or_nothing.
+
+Theorem C19_substrate_fault_all_or_nothing : forall mid d mask,
+  sub_exec mid (mark d mask) = [] \/ sub_exec mid (mark d mask) = sub_exec mid (mark d []).
+Proof. exact sub_exec_all_or_nothing. Qed.
+Print Assumptions C19_substrate_fault_all_or_nothing.
+
+Theorem C19_btc_fault_all_or_nothing : forall d mask,
+  btc_exec (mark d mask) = [] \/ btc_exec (mark d mask) = btc_exec (mark d []).
+Proof. exact btc_exec_all_or_nothing. Qed.
+Print Assumptions C19_btc_fault_all_or_nothing.
+
+(* ... so two relayers with ANY faults that both sign deposit n (distinct deposit nonces) sign it with
+   the same co-members under the same session id. *)
+Theorem C19_evm_fault_same_session : forall mid cap tg d m1 m2 s1 s2 n,
+  NoDup (map (fun x => fst (fst x)) d) ->
+  In s1 (evm_exec mid cap tg (mark d m1)) -> In s2 (evm_exec mid cap tg (mark d m2)) ->
+  In n (fst s1) -> In n (fst s2) -> s1 = s2.
+Proof. exact evm_exec_same_session. Qed.
+Print Assumptions C19_evm_fault_same_session.
+
+Theorem C19_substrate_fault_same_session : forall mid d m1 m2 s1 s2,
+  In s1 (sub_exec mid (mark d m1)) -> In s2 (sub_exec mid (mark d m2)) -> s1 = s2.
+Proof. exact sub_exec_same_session. Qed.
+Print Assumptions C19_substrate_fault_same_session.
+
+Theorem C19_btc_fault_same_group : forall d m1 m2 g1 g2 n,
+  NoDup (map (fun x => fst (fst x)) d) ->
+  In g1 (btc_exec (mark d m1)) -> In g2 (btc_exec (mark d m2)) ->
+  In n (fst g1) -> In n (fst g2) -> g1 = g2.
+Proof. exact btc_exec_same_group. Qed.
+Print Assumptions C19_btc_fault_same_group.
+
+(* The judge of the faulty-relayer cases (every session a relayer with failing look-ups starts is one of
+   its fault-free peer's) accepts the model for any number of relayers and any faults, and says what it
+   reads. *)
+Theorem C19_fault_judge_accepts_model_evm : forall mid cap tg d masks,
+  faulty_ok sess1_eqb (evm_exec mid cap tg (mark d [])) (map (fun m => evm_exec mid cap tg (mark d m)) masks) = true.
+Proof. exact faulty_ok_evm_model. Qed.
+Print Assumptions C19_fault_judge_accepts_model_evm.
+
+Theorem C19_fault_judge_accepts_model_substrate : forall mid d masks,
+  faulty_ok sess1_eqb (sub_exec mid (mark d [])) (map (fun m => sub_exec mid (mark d m)) masks) = true.
+Proof. exact faulty_ok_sub_model. Qed.
+Print Assumptions C19_fault_judge_accepts_model_substrate.
+
+Theorem C19_fault_judge_accepts_model_btc : forall d masks,
+  faulty_ok bgroup1_eqb (btc_exec (mark d [])) (map (fun m => btc_exec (mark d m)) masks) = true.
+Proof. exact faulty_ok_btc_model. Qed.
+Print Assumptions C19_fault_judge_accepts_model_btc.
+
+Theorem C19_fault_judge_sound_sessions : forall ref runs,
+  faulty_ok sess1_eqb ref runs = true -> forall run s, In run runs -> In s run -> In s ref.
+Proof. exact (fun ref runs => faulty_ok_sound sess1_eqb ref runs (fun a b H => proj1 (sess1_eqb_eq a b) H)). Qed.
+Print Assumptions C19_fault_judge_sound_sessions.
+
+Theorem C19_fault_judge_sound_groups : forall ref runs,
+  faulty_ok bgroup1_eqb ref runs = true -> forall run g, In run runs -> In g run -> In g ref.
+Proof. exact (fun ref runs => faulty_ok_sound bgroup1_eqb ref runs (fun a b H => proj1 (bgroup1_eqb_eq a b) H)). Qed.
+Print Assumptions C19_fault_judge_sound_groups.
+
+(* Skipping the proposal whose look-up failed instead of failing Execute (NOT the code) shifts the later
+   deposits into other batches: a session no fault-free peer has. *)
+Theorem C19_evm_skip_failed_lookup_refuted :
+  exists mid cap tg d mask,
+    NoDup (map (fun x => fst (fst x)) d) /\
+    faulty_ok sess1_eqb (evm_exec mid cap tg (mark d [])) [skip_evm_exec mid cap tg (mark d mask)] = false.
+Proof. exact skip_evm_exec_refuted. Qed.
+Print Assumptions C19_evm_skip_failed_lookup_refuted.
+
 (* the boolean cell test used by the judge is the statement of C19_ranges_are_cells *)
 Theorem C19_is_cell_spec : forall i s e, is_cell i s e = true <-> (s mod i = 0 /\ e = s + i - 1).
 Proof. exact is_cell_spec. Qed.
@@ -187,10 +291,22 @@ Example C19_nonvacuous :
   bexec_ok [(0%N, 768%N); (1%N, 1024%N); (2%N, 768%N)]
            [[([0%N; 2%N], Some 768%N); ([1%N], Some 1024%N)]] = true /\
   bexec_ok [(0%N, 768%N); (1%N, 1024%N); (2%N, 768%N)]
-           [[([1%N], Some 1024%N); ([1%N], Some 1024%N)]] = false.
+           [[([1%N], Some 1024%N); ([1%N], Some 1024%N)]] = false /\
+  (* four deposits of gas 100 under a cap of 250, deposit 2 already executed; the second look-up of one
+     relayer fails: that relayer starts nothing, its peer two sessions *)
+  (let d := [((1%N, None), false); ((2%N, None), true); ((3%N, None), false); ((4%N, None), false)] in
+   NoDup (map (fun x => fst (fst x)) d) /\
+   evm_exec "1-2-10-14" 250 100 (mark d []) =
+     [([1%N; 3%N], ["1-2-10-14-0"%string]); ([4%N], ["1-2-10-14-1"%string])] /\
+   evm_exec "1-2-10-14" 250 100 (mark d [false; true]) = [] /\
+   faulty_ok sess1_eqb (evm_exec "1-2-10-14" 250 100 (mark d [])) [[]; [([4%N], ["1-2-10-14-1"%string])]] = true /\
+   faulty_ok sess1_eqb (evm_exec "1-2-10-14" 250 100 (mark d [])) [[([3%N; 4%N], ["1-2-10-14-1"%string])]] = false).
 Proof.
   cbv zeta. split; [reflexivity|]. split; [right; reflexivity|]. split; [right; reflexivity|].
-  split; [vm_compute; auto 20|]. split; [vm_compute; auto 20|]. vm_compute. repeat split.
+  split; [vm_compute; auto 20|]. split; [vm_compute; auto 20|].
+  repeat (split; [vm_compute; reflexivity|]).
+  split; [|vm_compute; repeat split].
+  cbn. repeat constructor; cbn; intuition discriminate.
 Qed.
 
 (* The wiring extracted from app/app.go aligns every start block of the interval chains. *)
